@@ -603,6 +603,8 @@ class Ctx(B.Ctx):
         val = self.expr(init[0])
         if want is None:
             raise Unsupported("local %s of type %s" % (v.get("name"), v.get("type", {}).get("qualType", "?")[:60]))
+        if want[0] == "s" and val.k == "z":
+            val = S(self.scal(val))                      # Scalar x = <integer>: the conversion nofZ
         val = self.coerce2(val, want, v["name"])
         if val.k == "s":
             nm = self.fresh("l_" + v["name"])
